@@ -51,8 +51,8 @@ def parse_expr(src: str) -> ast.expr:
 # ------------------------------------------------------------------------------------------------
 
 def _zsort(t):
-    return {"int": z3.IntSort(), "real": z3.RealSort(), "bool": z3.BoolSort(), "str": z3.IntSort(),
-            "class": z3.IntSort()}.get(t, ObjS)
+    return {"int": z3.IntSort(), "nat": z3.IntSort(), "pos": z3.IntSort(), "real": z3.RealSort(),
+            "bool": z3.BoolSort(), "str": z3.IntSort(), "class": z3.IntSort()}.get(t, ObjS)
 
 
 def fresh(t: str, name: str, st: State, eng=None):
@@ -64,6 +64,10 @@ def fresh(t: str, name: str, st: State, eng=None):
     if t == "nat":
         v = z3.Int(nm)
         st.fact(v >= 0)
+        return v
+    if t == "pos":
+        v = z3.Int(nm)
+        st.fact(v >= 1)
         return v
     if t == "real":
         return z3.Real(nm)
@@ -149,7 +153,7 @@ def _wrap(term, t):
         return VStr(term)
     if t == "class":
         return VClass(term)
-    if t in ("int", "real", "bool", "nat"):
+    if t in ("int", "real", "bool", "nat", "pos"):
         return term
     if t.startswith("opaque:"):
         return Opaque(term, t.split(":", 1)[1])
